@@ -342,7 +342,9 @@ def eval_custom(ctx, case, func, within, obs_in, wtext, doc, detail):
 
 # ------------------------------------------------------------------------------------------- workload
 
-ALPHA = list("abAB zZ09-_!?.,'\"`*~$&<>()[]{}#+=/\\|") + ["é", "É", "ß", "İ", "ǅ", "中", "文", "한", "😀", "́", " ", " ", "ﬁ", "Σ", "ς", "½", "²", "٣", "_", "—"]
+ALPHA = list("abAB zZ09-_!?.,'\"`*~$&<>()[]{}#+=/\\|") + ["é", "É", "ß", "İ", "ǅ", "中", "文", "한", "😀", "́", " ", " ", "ﬁ", "Σ", "ς", "½", "²", "٣", "_", "—",
+                                                                 # letters that are not in Unicode normal form C (conjoining jamo, oxia vowels, compatibility ideographs, letter-like signs): a slug keeps them as written
+                                                                 "\u1112\u1161\u11ab", "\u1100\u1161", "\u1f71", "\u1f73", "\uf900", "\ufa10", "\u212b", "\u2126", "\u0958", "\u0b5c"]
 
 
 def rand_title(R):
